@@ -1160,3 +1160,41 @@ def param_fed_by(prog, f, pname, site_pred, depth=3):
             continue
         return False
     return True
+
+
+# ---------- a function's calls in source order, helpers and lambdas expanded, parameters substituted ----------
+
+def flat_calls(prog, f, expand, depth=3, _subst=None, _stack=()):
+    """[(event, args)] for the call events of f in source order; a call to a program-defined function / lambda g with expand(g) is
+    replaced by g's own sequence.  `args` is the event's argument list with every callee parameter name replaced (whole word, in the
+    text `t` and in `v`) by the text of the argument the caller passed for it, transitively -- so a rule written against the names
+    of the outermost function still matches when the code was moved into a helper or handed a callback."""
+    _subst = _subst or {}
+    out = []
+
+    def sub_text(t):
+        for p_, a_ in _subst.items():
+            t = re.sub(r"\b%s\b" % re.escape(p_), a_.replace("\\", "\\\\"), t or "")
+        return t
+
+    def sub_arg(a):
+        b = dict(a)
+        b["t"] = sub_text(a.get("t") or "")
+        if a.get("v") in _subst:
+            m = re.match(r"^[A-Za-z_]\w*$", _subst[a["v"]])
+            b["v"] = _subst[a["v"]] if m else None
+        return b
+    # clang numbers CFG blocks from the exit upwards: descending block id, then position in the block, is source order
+    for e in sorted(f.events("call"), key=lambda x: (-x.block, x.idx)):
+        args = [sub_arg(a) for a in e.get("args", [])]
+        gs = [g for g in prog.resolve_call(e) if g.blocks and g.id not in _stack and g.id != f.id and expand(g)] if depth > 0 else []
+        if gs:
+            g = gs[0]
+            s2 = {p_["name"]: (args[i].get("t") or "") for i, p_ in enumerate(g.params) if i < len(args) and not args[i].get("lam")}
+            # a lambda keeps seeing the names it captured from its own lexical scope, already substituted there
+            for k_, v_ in _subst.items():
+                s2.setdefault(k_, v_)
+            out += flat_calls(prog, g, expand, depth - 1, s2, _stack + (f.id,))
+        else:
+            out.append((e, args))
+    return out
